@@ -166,6 +166,7 @@ func init() {
 			{"field-bij/inv-dep", "set/get field maps are inverse (dependence slices with control dependence)", ruleFieldBij},
 			{"setter-scope", "convenience setters touch only their fields", ruleSetterScope},
 			{"err-atomic", "validate before write", ruleErrAtomicPage},
+			{"round-nearest", "mm→twips on the write path rounds to nearest (no truncating conversion)", ruleRoundNearest},
 		},
 		Assumptions: commonAssumptions,
 	}
@@ -204,6 +205,7 @@ func init() {
 			}},
 			{"must-update", "registrations on every path", ruleMustUpdate},
 			{"part-from-registry", "regenerated notes/numbering parts contain every registry entry (unfiltered range loop over the registry map)", rulePartFromRegistry("Footnotes", "Endnotes", "Numbering")},
+			{"toc-config-flow", "functions given a TOC configuration collect headings with that configuration's level on every path", ruleTOCConfigFlow},
 		},
 		Assumptions: commonAssumptions,
 	}
